@@ -16,13 +16,23 @@ RULE = ("times of day are microsecond-of-day integers: a boundary set (00:00:00,
         "representable range 0001-01-01..9999-12-31 expressed in each unit and with compensating parts (+-1 us around the edge), plus integers "
         "far beyond it; timedeltas with raw days/seconds/microseconds whose normal form has days in -2..2 (incl. negative sub-day deltas); "
         "all ordered pairs of boundary times for diff / t2 - t1 (Time and datetime.time operands, both operand orders) and triples for "
-        "closest/farthest incl. sub-second distances. A case is non-trivial when it is a distinct (function, arguments) tuple; each is compared "
+        "closest/farthest incl. sub-second distances. timedelta SUBCLASS operands for every entry point (add_timedelta, subtract_timedelta, t + x, t - x, x + t, x - t): "
+        "pendulum.Duration and AbsoluteDuration given by their nine constructor integers (literal user forms; every boundary total -366 d .. 40 y decomposed in seven "
+        "styles incl. weeks/days/milliseconds and compensating parts of opposite sign; a years/months part that keeps or changes the native value; whole days whose "
+        "sub-day components are all zero; negative spans whose normal form has days = -1), Interval built eight ways (UTC / naive / stdlib / mixed-zone / Date endpoints, "
+        "end - start, start.diff(end), absolute or not) around the same totals, and a user subclass of timedelta that overrides nothing; plus the six accessor values "
+        "(presented and native days/seconds/microseconds) of every such object. A case is non-trivial when it is a distinct (function, arguments) tuple; each is compared "
         "implementation (both backends) vs extracted Coq model and implementation vs the integer/stdlib oracle.")
 EXHAUSTIVE = {"quick": False, "thorough": False}
 TRUSTED = ["coq/Model/TimeOfDay.v: the hand-written glue around the translated cores (EPOCH.at(..).add(..).time() in UTC as Spec/Cal.v wall-clock "
            "arithmetic with the 0001..9999 range check; CPython's timedelta constructor as exact integer total + floor normal form) — tied by correspondence",
            "tools/vlib/gens/g70_time.py: picks the statements of helpers.add_duration / Time.* that are translated and compares the rest with fixed text (fails closed)"]
 ASSUMPTIONS = ["arguments of add/subtract are Python ints (floats and bools are outside the property)",
+               "subclass operands: 'day component' is read on what the operand IS as a timedelta (days of the normal form of its native value != 0, as for a plain timedelta; "
+               "Duration counts years * 365 + months * 30 days) for Duration / AbsoluteDuration / a plain subclass; an Interval presents itself in sign-magnitude form "
+               "(interval.py overrides `days`), so its day component is |span| >= 24 h and a NEGATIVE span shorter than a day shifts backwards exactly (an equal plain "
+               "timedelta or Duration is rejected) — stated as interval_operand_spec; operands stay below 60 years, inside the domain where Duration.__new__'s float "
+               "normalisation is proved exact (C09 D9: 2^32 s)",
                "round(Duration.total_seconds() * 10**6) recovers the microsecond total exactly below one day (|error| < 1e-4); the native timedelta fields are read as a second, exact observation",
                "every exception on the add path for out-of-range amounts is an OverflowError (date value out of range, timedelta days > 999999999, int too large for C int / float); checked on each such case"]
 VM_SUBSET = 260
@@ -111,7 +121,8 @@ def _rand_amount(rnd):
 #   (days, seconds, microseconds, milliseconds, minutes, hours, weeks, years, months);  kind 0 = Duration, 1 = AbsoluteDuration.
 # An Interval operand (kind 2) is (variant, start, end, absolute): start / end are microseconds since 1970-01-01T00:00 UTC, the variant says
 # how the two endpoints are presented and how the Interval is obtained (IVL_VARIANTS).
-OPERAND_FNS = ("sc_add_timedelta", "sc_subtract_timedelta", "sc_op_add", "sc_op_sub", "sc_op_radd")
+OPERAND_FNS = ("sc_add_timedelta", "sc_subtract_timedelta", "sc_op_add", "sc_op_sub", "sc_op_radd", "sc_op_rsub")
+# kind 3: a user-defined subclass of datetime.timedelta that overrides nothing (seven native constructor integers, years = months = 0)
 IVL_VARIANTS = 8
 YEAR_US, MONTH_US = 365 * DAY, 30 * DAY
 SPAN_LIMIT = 60 * 365 * DAY      # |native value| and |value without the year/month part| stay far inside C09's exactness domain D9 (2^32 s = 136 years)
@@ -241,6 +252,7 @@ def _operand_cases(rnd, big, rtod):
         elif r < 0.35:
             a = _with_ym(rnd, a, kind, False)
         ops.append((kind, a))
+    ops += [(3, a) for j, (k, a) in enumerate(ops) if j % 5 == 0 and a[7] == 0 and a[8] == 0]
     ops = [(k, a) for k, a in ops if abs(_dur_native(k, a)) < SPAN_LIMIT and abs(_dur_native(1, a)) < SPAN_LIMIT]
     # Intervals: (variant, start, end, absolute)
     ivs = []
@@ -263,6 +275,7 @@ def _operand_cases(rnd, big, rtod):
             out.append({"stream": "subclass-operand", "fn": fn, "args": [t, kind, *a]})
         if i % 4 == 0:
             out.append({"stream": "subclass-operand", "fn": "sc_op_radd", "args": [t, kind, *a]})
+            out.append({"stream": "subclass-operand", "fn": "sc_op_rsub", "args": [t, kind, *a]})
         out.append({"stream": "subclass-operand-accessors", "fn": "sc_observe", "args": [kind, *a]})
     for i, (v, s0, e0, ab) in enumerate(ivs):
         if v == 6:       # Date endpoints: whole days
@@ -272,6 +285,7 @@ def _operand_cases(rnd, big, rtod):
             out.append({"stream": "interval-operand", "fn": fn, "args": [t, 2, v, s0, e0, ab]})
         if i % 4 == 0:
             out.append({"stream": "interval-operand", "fn": "sc_op_radd", "args": [t, 2, v, s0, e0, ab]})
+            out.append({"stream": "interval-operand", "fn": "sc_op_rsub", "args": [t, 2, v, s0, e0, ab]})
         out.append({"stream": "subclass-operand-accessors", "fn": "sc_observe", "args": [2, v, s0, e0, ab]})
     return out
 
@@ -439,13 +453,13 @@ def impl_run(cases):
                 t = T(*_fields(a[0]))
                 d = _build_operand(a[1:], pendulum, datetime)
                 r = t.add_timedelta(d) if fn == "sc_add_timedelta" else t.subtract_timedelta(d) if fn == "sc_subtract_timedelta" else \
-                    t + d if fn == "sc_op_add" else t - d if fn == "sc_op_sub" else d + t
+                    t + d if fn == "sc_op_add" else t - d if fn == "sc_op_sub" else d + t if fn == "sc_op_radd" else d - t
                 out.append(time_res(r))
             elif fn == "sc_observe":
                 d = _build_operand(a, pendulum, datetime)
                 out.append([0, d.days, d.seconds, d.microseconds,
                             timedelta.days.__get__(d), timedelta.seconds.__get__(d), timedelta.microseconds.__get__(d),
-                            int(type(d) is (Duration, AbsoluteDuration, pendulum.Interval)[a[0]])])
+                            int(type(d) is (Duration, AbsoluteDuration, pendulum.Interval, _plain_subclass(datetime))[a[0]])])
             elif fn == "diff":
                 t1, t2 = T(*_fields(a[0])), T(*_fields(a[1]))
                 d = t1.diff(t2, bool(a[2]))
@@ -495,6 +509,15 @@ def impl_run(cases):
     return out
 
 
+_SUBCLASS = []
+
+
+def _plain_subclass(datetime):
+    if not _SUBCLASS:
+        _SUBCLASS.append(type("PlainDelta", (datetime.timedelta,), {}))
+    return _SUBCLASS[0]
+
+
 def _build_operand(a, pendulum, datetime):
     """the timedelta-subclass object described by a = [kind, ...] (see OPERAND_FNS); runs inside the staged interpreter"""
     from pendulum.duration import AbsoluteDuration, Duration
@@ -503,6 +526,8 @@ def _build_operand(a, pendulum, datetime):
         return Duration(*a[1:10])
     if kind == 1:
         return AbsoluteDuration(*a[1:10])
+    if kind == 3:
+        return _plain_subclass(datetime)(*a[1:8])
     v, s0, e0, ab = a[1:5]
     E = datetime.datetime(1970, 1, 1)
 
@@ -587,9 +612,14 @@ def model_calls(c, backend):
     if fn == "td_spec":
         return [("td_make", a)]
     if fn in OPERAND_FNS or fn == "sc_observe":
-        if fn == "sc_op_radd":
-            return None                       # timedelta + Time: only the oracle speaks (no __radd__ in the model)
+        if fn in ("sc_op_radd", "sc_op_rsub"):
+            return None                       # timedelta + Time, timedelta - Time: only the oracle speaks (no reflected operator in the model)
         head, o = ([a[0]], a[1:]) if fn != "sc_observe" else ([], a)
+        if o[0] == 3:                         # nothing overridden: the plain-timedelta entries
+            tot = _dur_native(1, o[1:10])
+            if fn == "sc_observe":
+                return [("td_make", [0, 0, tot])]
+            return [("time_add_timedelta" if fn in ("sc_add_timedelta", "sc_op_add") else "time_subtract_timedelta", [a[0], 0, 0, tot])]
         nine = list(o[1:10]) if o[0] != 2 else [_ivl_delta(o[1:5])] + [0] * 8
         name = {"sc_add_timedelta": "time_add_operand", "sc_op_add": "time_add_operand", "sc_subtract_timedelta": "time_subtract_operand",
                 "sc_op_sub": "time_subtract_operand", "sc_observe": "operand_observe"}[fn]
@@ -633,6 +663,8 @@ def model_result(c, backend, outs):
     if fn in ("closest", "farthest"):
         return list(outs[0]) + [1]
     if fn == "sc_observe":
+        if a[0] == 3:
+            return [0] + list(outs[0][1:]) * 2 + [1]
         return _mres(outs[0]) + ([1] if outs[0][0] == 0 else [])
     return _mres(outs[0])
 
@@ -662,12 +694,12 @@ def _operand_expect(o):
     (Interval.days is overridden), day component = |span| >= 24 h, and a shorter span of EITHER sign shifts exactly."""
     from datetime import timedelta
     kind = o[0]
-    if kind in (0, 1):
+    if kind in (0, 1, 3):
         d, s, us, ms, mi, h, w, y, mo = o[1:10]
         td = timedelta(days=d + (365 * y + 30 * mo if kind == 0 else 0), seconds=s, microseconds=us, milliseconds=ms, minutes=mi, hours=h, weeks=w)
         assert (td.days * 86400 + td.seconds) * 10**6 + td.microseconds == _dur_native(kind, o[1:10])
         kw = ", ".join(f"{k}={v}" for k, v in zip(("days", "seconds", "microseconds", "milliseconds", "minutes", "hours", "weeks", "years", "months"), o[1:10]) if v)
-        return td.days != 0, td.seconds * 10**6 + td.microseconds, f"{('Duration', 'AbsoluteDuration')[kind]}({kw}) [= {td!r}]"
+        return td.days != 0, td.seconds * 10**6 + td.microseconds, f"{('Duration', 'AbsoluteDuration', '', 'PlainDelta(timedelta)')[kind]}({kw}) [= {td!r}]"
     delta = _ivl_delta(o[1:5])
     how = ("Interval(utc, utc)", "Interval(naive, naive)", "Interval(datetime, datetime)", "end - start", "start.diff(end)", "Interval(+05:30, utc)",
            "Interval(date, date)", "start - stdlib end")[o[1]]
@@ -700,7 +732,9 @@ def oracle(c, backend, r):
     if fn in OPERAND_FNS:
         has_days, total, what = _operand_expect(a[1:])
         sign = -1 if fn in ("sc_subtract_timedelta", "sc_op_sub") else 1
-        how = {"sc_add_timedelta": "t.add_timedelta(x)", "sc_subtract_timedelta": "t.subtract_timedelta(x)", "sc_op_add": "t + x", "sc_op_sub": "t - x", "sc_op_radd": "x + t"}[fn]
+        how = {"sc_add_timedelta": "t.add_timedelta(x)", "sc_subtract_timedelta": "t.subtract_timedelta(x)", "sc_op_add": "t + x", "sc_op_sub": "t - x", "sc_op_radd": "x + t", "sc_op_rsub": "x - t"}[fn]
+        if fn == "sc_op_rsub":               # a duration minus a time of day means nothing
+            return None if r == [1, "TypeError"] else f"x = {what}: x - Time{_fields(a[0])} was not rejected with TypeError: {r}"
         if fn == "sc_op_radd" and r == [1, "TypeError"]:
             return None                      # timedelta + Time is not offered at all
         if has_days:
@@ -709,7 +743,7 @@ def oracle(c, backend, r):
         return None if r == [0, e, 1] else f"t = Time{_fields(a[0])}, x = {what} (no day component, {total} us): {how} -> {r}, expected {[0, e, 1]} (exact shift modulo 24 h)"
     if fn == "sc_observe":
         _, _, what = _operand_expect(a)
-        tot = _dur_native(a[0], a[1:10]) if a[0] != 2 else _ivl_delta(a[1:5])
+        tot = _dur_native(0 if a[0] == 0 else 1, a[1:10]) if a[0] != 2 else _ivl_delta(a[1:5])
         td = timedelta(microseconds=tot)
         if r[0] != 0:
             return f"{what} could not be built: {r}"
@@ -809,6 +843,20 @@ LEVEL_NOTE = ("Trusted: Coq kernel+VM, the Python->Gallina translator and the st
               "they are listed as fixed and are reported again as violations if they return.")
 TECHNIQUE = "Coq proof (lia with Euclidean division) over translated code + differential correspondence for the hand-written glue"
 
+
+# timedelta subclass operands
+TRUSTED = list(TRUSTED) + [
+    "coq/Model/TimeOperand.v: which accessors of a Duration / AbsoluteDuration / Interval the Time methods see (days: native slot, overridden by Interval; seconds / microseconds: the "
+    "class's own components) over C09's / C10's object models (Model/Duration.v = translated duration.py, Model/DurationOps.interval_new) — tied by correspondence on the "
+    "subclass-operand / interval-operand / subclass-operand-accessors streams; the span of an Interval (end - start, magnitude when absolute) is computed by the harness (C05's subject)",
+    "Flocq correctness theorems and the standard-library real-number axioms reported by Print Assumptions for duration_operand_spec / absolute_duration_operand_spec / interval_operand_spec only "
+    "(ClassicalDedekindReals.sig_not_dec, ClassicalDedekindReals.sig_forall_dec, FunctionalExtensionality.functional_extensionality_dep, Classical_Prop.classic: exactness of Duration.__new__'s float "
+    "normalisation, Proofs/FloatRoundTripC09.v); every other C20 theorem is closed under the global context",
+]
+LEVEL_NOTE = LEVEL_NOTE + (" timedelta SUBCLASS operands are inside the Coq model (Model/TimeOperand.v, dispatch 14-16, theorems subclass_operand_days_rejected, duration_operand_spec, "
+                           "absolute_duration_operand_spec, interval_operand_spec) and in the correspondence run; the reflected forms x + t / x - t are oracle-only (model_calls returns None). "
+                           "Observed, not classified as a defect: Time + Interval(negative span shorter than a day) succeeds with the exact backward shift whereas the equal plain "
+                           "timedelta / Duration (normal form days = -1) raises TypeError.")
 
 # the remaining method bodies of Time are translated whole from /repo on every run and the hand model is PROVED equal to them
 TRUSTED = list(TRUSTED) + [
